@@ -8,6 +8,13 @@ from jaxtyping import Array
 
 def try_cast(x: Any) -> Array | None:
     try:
-        return jnp.asarray(x)
-    except (TypeError, ValueError, OverflowError):
+        x = jnp.asarray(x)
+    except Exception:
+        # Any conversion failure means "not a member" (e.g. ``jnp.asarray("012")``
+        # raises ``SyntaxError``).
         return None
+
+    if jnp.issubdtype(x.dtype, jnp.complexfloating):
+        return None
+
+    return x
